@@ -39,7 +39,30 @@ DEFECT_SVG = {
 }
 
 
-def concretise(sc):
+def _grad(stop_color="red", spread=None, kind="linearGradient", extra=""):
+    sp = f' spreadMethod="{spread}"' if spread else ""
+    return _svg(f'<defs><{kind} id="g"{sp}{extra}><stop offset="0" stop-color="{stop_color}"/>'
+                f'<stop offset="1" stop-color="blue"/></{kind}></defs><rect x="1" y="1" width="50" height="50" fill="url(#g)"/>')
+
+
+# several concrete instances per defect class (index 0 is the one used in CLI runs unless a variant is requested)
+DEFECT_VARIANTS = {
+    "unparsable": [DEFECT_SVG["unparsable"], "<svg xmlns='http://www.w3.org/2000/svg' viewBox='0 0 100 100'><g><rect x='1' y='1' width='5' height='5'/></svg>",
+                   "not xml at all"],
+    "badfill": [DEFECT_SVG["badfill"]] + [_svg(f'<rect x="1" y="1" width="50" height="50" fill="{c}"/>') for c in
+                                          ("#ff00000", "#ff", "#ggg", "#ff0000000", "rgb(1,2)", "var(--color1, #12)")]
+               + [_grad(stop_color="#ff00000"), _grad(stop_color="nosuchcolour")],
+    "missingpaint": [DEFECT_SVG["missingpaint"], _svg('<defs><linearGradient id="g"/></defs><rect x="1" y="1" width="5" height="5" fill="url(#other)"/>')],
+    "badspread": [DEFECT_SVG["badspread"], _grad(spread="bogus", kind="radialGradient"), _grad(spread="mirror")],
+    "palconflict": [DEFECT_SVG["palconflict"],
+                    _svg('<rect x="1" y="1" width="30" height="30" fill="var(--color2, red)"/><rect x="40" y="40" width="20" height="30" fill="red"/>'
+                         '<rect x="50" y="5" width="30" height="20" fill="var(--color2, #00ff00)"/>'),
+                    _svg('<defs><linearGradient id="g"><stop offset="0" stop-color="var(--color0, red)"/><stop offset="1" stop-color="var(--color0, blue)"/>'
+                         '</linearGradient></defs><rect x="1" y="1" width="50" height="50" fill="url(#g)"/>')],
+}
+
+
+def concretise(sc, variant=0):
     """-> (files {rel: text}, args list, expect_stop bool)"""
     files, order = {}, []
     neighbours = [f"src/emoji_u1f6{10 + k:02d}.svg" for k in range(sc["n"])]
@@ -67,7 +90,8 @@ def concretise(sc):
     elif cls == "mastermismatch":
         defect_paths = []
     else:
-        files["src/emoji_u1f600.svg"] = DEFECT_SVG[cls]
+        vs = DEFECT_VARIANTS[cls]
+        files["src/emoji_u1f600.svg"] = vs[variant % len(vs)]
         defect_paths = ["src/emoji_u1f600.svg"]
     order = list(neighbours)
     pos = min(sc["pos"], len(order))
@@ -108,8 +132,8 @@ def _count_colour_glyphs(font_path, fmt):
     return len([cp for cp in cmap if cp >= 0x1F000])
 
 
-def run_scenario(sc, work: Path, tag, prebuild):
-    files, args, expect_stop, nsrc = concretise(sc)
+def run_scenario(sc, work: Path, tag, prebuild, variant=0):
+    files, args, expect_stop, nsrc = concretise(sc, variant)
     d = work / f"s-{tag}"
     sb = cli.Sandbox(d)
     problems = []
@@ -160,22 +184,23 @@ def inprocess(chk, scenarios):
     for sc in scenarios:
         if sc["fmt"] in ("cbdt", "sbix", "vf") or sc["cls"] in ("dupfilename", "mastermismatch", "toobig"):
             continue
-        files, args, expect_stop, nsrc = concretise(sc)
-        order = [a for a in args if a.endswith(".svg")]
-        cfg = build.base_config(color_format=FMT[sc["fmt"]])
-        srcs = [build.Src(p, files[p]) for p in order]
-        chk.case(key=("inproc", json.dumps(sc, sort_keys=True)), nontrivial=sc["cls"] != "none")
-        try:
-            _, font = build.build(cfg, srcs)
-            err = None
-        except Exception as e:
-            err = f"{type(e).__name__}: {str(e)[:120]}"
-        done += 1
-        if expect_stop and err is None:
-            chk.violation(f"in-process: defect '{sc['cls']}' in {sc['fmt']} produced a font",
-                          {"scenario": sc, "files": files, "order": order})
-        if not expect_stop and sc["cls"] == "none" and err is not None:
-            raise MachineryError(f"valid in-process build failed: {err}")
+        for variant in range(len(DEFECT_VARIANTS.get(sc["cls"], [None]))):
+            files, args, expect_stop, nsrc = concretise(sc, variant)
+            order = [a for a in args if a.endswith(".svg")]
+            cfg = build.base_config(color_format=FMT[sc["fmt"]])
+            srcs = [build.Src(p, files[p]) for p in order]
+            chk.case(key=("inproc", json.dumps(sc, sort_keys=True), variant), nontrivial=sc["cls"] != "none")
+            try:
+                _, font = build.build(cfg, srcs)
+                err = None
+            except Exception as e:
+                err = f"{type(e).__name__}: {str(e)[:120]}"
+            done += 1
+            if expect_stop and err is None:
+                chk.violation(f"in-process: defect '{sc['cls']}' (instance {variant}) in {sc['fmt']} produced a font",
+                              {"scenario": sc, "files": files, "order": order})
+            if not expect_stop and sc["cls"] == "none" and err is not None:
+                raise MachineryError(f"valid in-process build failed: {err}")
     chk.notes["inprocess_scenarios"] = done
 
 
@@ -215,7 +240,7 @@ def run(chk):
     with common.scratch("c17-") as work:
         def one(k_sc):
             k, sc = k_sc
-            return sc, run_scenario(sc, work, k, prebuild=(k % 3 == 0))
+            return sc, run_scenario(sc, work, k, prebuild=(k % 3 == 0), variant=k)
 
         with ThreadPoolExecutor(8) as ex:
             results = list(ex.map(one, enumerate(picks)))
